@@ -43,3 +43,32 @@ def step_only(rng):
 
 def mixed_calls(rng):
     return rng.choice(["step", "first", "second", "single", "single", "first", "second"])
+
+
+def branchy_words(rng):
+    """A terminating program of forward branches, taken and not taken in turn: blocks `ZRO|INC|DEC|LDA d|NOP ; BRZ fwd`."""
+    nblocks = rng.choice([2, 3, 4, 6])
+    words = []
+    total = 2 * nblocks + rng.choice([0, 1, 2])
+    for b in range(nblocks):
+        pre = rng.choice([0xB000, 0xB000, 0x9000, 0x9000, 0xA000, 0x1000 | 100, 0x1000 | 101, 0xC000, 0x8000])  # ZRO INC DEC LDA NOP NOT
+        words.append(pre)
+        tgt = rng.randrange(len(words) + 1, total + 1)
+        words.append(0x2000 | tgt)
+    while len(words) < total:
+        words.append(rng.choice([0xC000, 0x9000, 0xB000]))
+    return words
+
+
+def branchy_case(rng, calls, suite="toy-branchy"):
+    words = branchy_words(rng)
+    n = len(words)
+    data = {100: rng.choice([0, 0, 1, 0xFFFF]), 101: rng.choice([0, 5])}
+    lines = ["toy.new", "toy.load " + " ".join([str(n)] + [str(w) for w in words] + [f"{a}:{v}" for a, v in sorted(data.items())])]
+    if rng.random() < 0.5:
+        lines.append(f"toy.accu {rng.choice([0, 1, 0xFFFF])}")
+    lines.append("toy.snap")
+    for _ in range(4 * n + 4):
+        lines.append(f"toy.call {calls(rng)}")
+        lines.append("toy.snap")
+    return Case(suite, lines, None, {"n": n, "words": words})
